@@ -161,6 +161,7 @@ def run(ctx):
         ctx.check(ok_ret, 'R13.3', 'returns-path', dual.where(0), dual.path, 'no Ok(path) return found')
     _ancestor_walk(ctx, prog)
     _tree_bookkeeping(ctx, prog)
+    _index_width(ctx, prog)
     swaps = calls.get('mem::swap', [])
     ctx.check(len(swaps) == 1, 'R13.3', 'swap', dual.where(swaps[0][0]) if swaps else dual.where(0), dual.path, 'trees must be swapped exactly once per iteration', found=len(swaps))
 
@@ -843,3 +844,37 @@ def _tree_bookkeeping(ctx, prog):
                     pay.append(strip(t_[2]) == new_t)
             ctx.check(bool(pay) and all(pay), 'R13.7', 'extend/reports-new', grow.where(0), grow.path,
                       'Reached / Advanced must carry the index of the vertex that was just added', found=str(pay))
+
+
+INT_BITS = {'u8': 8, 'i8': 7, 'u16': 16, 'i16': 15, 'u32': 32, 'i32': 31, 'u64': 64, 'i64': 63, 'usize': 64, 'isize': 63, 'u128': 128, 'i128': 127}
+
+
+def _index_width(ctx, prog):
+    """R13.8: vertex indices keep their width.  One `connect` adds distance / step vertices, so the size of a tree is not
+    bounded by the number of iterations; an index stored or computed through a narrower integer type (`idx as u16`) wraps
+    silently once a tree outgrows it and the ancestor walk then jumps to an unrelated vertex."""
+    from ..census import Bounds
+    ctx.rule('R13.8', 'no integer cast in the tree search narrows a value that is not provably within the target type (vertex indices and lengths are unbounded)')
+    n = 0
+    for p_, b in prog.bodies.items():
+        if not p_.startswith('rrt_to::'):
+            continue
+        bounds = None
+        for i, j, st in b.stmts():
+            rv = st['rv']
+            if rv['k'] != 'cast' or 'IntToInt' not in str(rv.get('kind')) or st.get('span', {}).get('exp'):
+                continue
+            dst = rv.get('ty')
+            op = rv['op']
+            src = b.local_ty(op['place']['local']) if op.get('k') in ('copy', 'move') and not op['place']['proj'] else (op.get('ty') if op.get('k') == 'const' else None)
+            if dst not in INT_BITS or src not in INT_BITS or INT_BITS[dst] >= INT_BITS[src]:
+                continue
+            n += 1
+            bounds = bounds or Bounds(b)
+            r = bounds.rng(b.op_term(op, (i, j)))
+            ok = r is not None and r[0] >= 0 and r[1] < 2 ** INT_BITS[dst]
+            ctx.check(ok, 'R13.8', '%s/%s-as-%s' % (p_.split('::')[-1], src, dst), b.where(i, j), b.path,
+                      'a %s value that is not provably below 2^%d is cast to %s: vertex indices and tree sizes are unbounded' % (src, INT_BITS[dst], dst),
+                      found=show(b.op_term(op, (i, j)), maxdepth=3), detail='range %s' % (r,))
+    if n == 0:
+        ctx.ok('R13.8', 'no-narrowing-casts', '', 'no narrowing integer cast in the tree search')
